@@ -1,0 +1,35 @@
+//go:build verif
+
+package mpb
+
+import (
+	"sync/atomic"
+	"time"
+)
+
+// Instrumentation for the verification harness (build tag "verif" only).
+
+var verifHook atomic.Value // of func(point string, n int, obj interface{})
+
+// SetVerifHook installs fn to be called at every named event point. Pass nil
+// to remove it.
+func SetVerifHook(fn func(point string, n int, obj interface{})) {
+	if fn == nil {
+		fn = func(string, int, interface{}) {}
+	}
+	verifHook.Store(fn)
+}
+
+func verifPoint(point string, n int, obj interface{}) {
+	if fn, ok := verifHook.Load().(func(string, int, interface{})); ok {
+		fn(point, n, obj)
+	}
+}
+
+// VerifRenderReq copies the container's render request channel out, so that
+// the harness can inject refresh ticks into an auto-refreshing container.
+func VerifRenderReq(dst *chan<- time.Time) ContainerOption {
+	return func(s *pState) {
+		*dst = s.renderReq
+	}
+}
